@@ -109,6 +109,32 @@ def rule_d2(F):
         after = [e for e in errs if tj and tj[0] in dom[e]]
         if not before or not after:
             r.bad(b.path, "recursive constant placement", relfile(b.file), b.line, "expected one rejection before (self reference) and one after (component test) the SCC computation")
+        else:
+            # every member of a multi-item component is examined one by one: the rejection lies inside a loop over
+            # the component's members, nested in the loop over the components, and is guarded by `len() > 1`
+            loops = mir.natural_loops(b)
+            depth = 0
+            for g in gs:
+                nexts = [c[0] for c in g["chain"] if hir.last(c[2]) == "next"]
+                if not nexts:
+                    continue
+                if any(any(gt in dom[e] for gt in g["good"]) for e in after):
+                    depth = max(depth, max(mir.loop_depth(b, n, loops) for n in nexts))
+            r.inst("component members examined individually", {"loop_nesting_of_rejection": depth})
+            if depth < 2:
+                r.bad(b.path, "component test", relfile(b.file), b.blocks[after[0]]["term"]["line"],
+                      "the rejection of a cycle is not inside a loop over the members of the component: not every member is tested, so a cycle with a single constant (e.g. `const A = foo(); fn foo() { A }`) can pass")
+            lens = [bi for bi, t in mir.calls(b) if hir.last(mir.callee_def(t)) == "len" and tj[0] in dom[bi]]
+            gt1 = False
+            for bi2, blk in enumerate(b.blocks):
+                for st in blk["stmts"]:
+                    if st["k"] == "assign" and st["rv"]["k"] == "bin" and st["rv"]["op"] in ("Gt", "Ge", "Lt", "Le", "Eq", "Ne"):
+                        c = mir.op_const(st["rv"]["b"]) or mir.op_const(st["rv"]["a"])
+                        if c is not None and c.get("v") in (1, 2) and tj[0] in dom[bi2] and any(bi2 in dom[e] for e in after):
+                            gt1 = (st["rv"]["op"], c.get("v")) in (("Gt", 1), ("Ge", 2))
+            r.inst("component size test", {"len_calls": len(lens), "is_len_gt_1": gt1})
+            if not gt1:
+                r.bad(b.path, "component size", relfile(b.file), b.line, "the cycle test must apply to every component with more than one member (`len() > 1`)")
     # the Ok value is the flattened components in order
     for bi, s in oks:
         ch = mir.value_chain(b, defs, s["rv"]["ops"][0][1][0]) if mir.is_place_op(s["rv"]["ops"][0]) else []
